@@ -16,6 +16,31 @@
 //!        as prog, but only MaxSharing and InternalSharing (for tables whose tree expansion is
 //!        astronomically large: an iterator that expands shared nodes does not terminate there).
 //!
+//!   conv <root> <table> <mode> <keys> <hides> <failat>
+//!        Node::convert on a DAG of a harness-defined marker built with Node::from_parts (no typing,
+//!        all sixteen combinators).  table: nodes `k:a:b:pay` (k = combinator 0..15 in the order of
+//!        `Inner`; a, b child positions, for disconnect b = right+1 | 0; pay = position whose CMR is
+//!        the hidden CMR of an assertion / fail entropy byte / jet number / word byte / witness);
+//!        mode 0 NoSharing, 1 InternalSharing, 2 MaxSharing<Src> with sharing ids <keys>;
+//!        hides: one digit per node (0 neither, 1 left, 2 right) or `-`; failat: the k-th fallible
+//!        hook call returns Err (0 = never).  The converter is instrumented: every hook call is
+//!        logged with the item and the child pointers it is given.  Format: coq/Dag/RunConvert.v
+//!        (`run_conv`), followed - on success - by one flag: 1 iff `Arc::ptr_eq` on all child
+//!        pointers seen agrees with equality of the conversion index stored in the nodes.
+//!   arc <root> <table> <mode> <keys> <max_depth> <marker>
+//!        the combinator table of `conv` built with Node::from_parts for a marker whose disconnect data is
+//!        o = Option<Arc<Node>> (b = right+1 | 0), a = Arc<Node> (right child required), n = NoDisconnect,
+//!        s = Arc<str> (both: no right child): every Disconnectable impl.  The five observations of `dag`
+//!        are taken twice: iterating by `&Node` (impl DagLike for &Node, disconnect_dag_ref) and by cloned
+//!        `Arc<Node>` by value (impl DagLike for Arc<Node>, disconnect_dag_arc); mode 2 = MaxSharing<marker>.
+//!   proga <root> <table> <max_depth>
+//!        the program of `prog` iterated by value: Arc<CommitNode> under MaxSharing<Commit>, InternalSharing,
+//!        NoSharing, then the ConstructNode DAG (before finalisation) by `&ConstructNode` and by
+//!        Arc<ConstructNode> under InternalSharing.
+//!   convp <root> <table>
+//!        the unit/injl/pair CommitNode program of `prog`, converted with MaxSharing<Commit>,
+//!        InternalSharing and NoSharing through the same instrumented converter.
+//!
 //! result: five sections  post, rtl, pre, verbose-pre, is_shared_as; a section is
 //!   `0 <len> <items..>` or `9` (panic); post/rtl item = node index left+1|0 right+1|0;
 //!   pre item = node; verbose item = node parent+1|0 index depth n_children_yielded complete;
@@ -25,7 +50,11 @@ use simplicity::dag::{
     Dag, DagLike, InternalSharing, MaxSharing, NoSharing, PostOrderIterItem, PreOrderIterItem,
     SharingTracker,
 };
-use simplicity::node::{Commit, CommitNode, ConstructNode, CoreConstructible};
+use simplicity::jet::{Core, Jet};
+use simplicity::node::{
+    Commit, CommitNode, ConstructNode, Converter, CoreConstructible, Hide, Inner, Marker, Node,
+};
+use simplicity::{Cmr, FailEntropy, Word};
 use simplicity::types;
 use std::cell::RefCell;
 use std::collections::hash_map::Entry;
@@ -298,8 +327,573 @@ fn run_prog(t: &[&str], with_nosharing: bool) -> String {
     )
 }
 
+// ------------------------------------------------------------------ Node::convert
+#[derive(Copy, Clone, PartialEq, Eq, PartialOrd, Ord, Debug, Hash)]
+pub enum Src {}
+impl Marker for Src {
+    type CachedData = usize; // table position
+    type Witness = u64;
+    type Disconnect = Option<Arc<Node<Src>>>;
+    type SharingId = u64;
+    fn compute_sharing_id(_: Cmr, pos: &usize) -> Option<u64> {
+        KEYS.with(|k| k.borrow()[*pos])
+    }
+}
+
+#[derive(Copy, Clone, PartialEq, Eq, PartialOrd, Ord, Debug, Hash)]
+pub enum Dst {}
+impl Marker for Dst {
+    type CachedData = usize; // index of the item the node was converted from
+    type Witness = u64;
+    type Disconnect = Option<Arc<Node<Dst>>>;
+    type SharingId = u64;
+    fn compute_sharing_id(_: Cmr, _: &usize) -> Option<u64> {
+        None
+    }
+}
+
+macro_rules! table_marker {
+    ($name:ident, $disc:ty) => {
+        #[derive(Copy, Clone, PartialEq, Eq, PartialOrd, Ord, Debug, Hash)]
+        pub enum $name {}
+        impl Marker for $name {
+            type CachedData = usize;
+            type Witness = u64;
+            type Disconnect = $disc;
+            type SharingId = u64;
+            fn compute_sharing_id(_: Cmr, pos: &usize) -> Option<u64> {
+                KEYS.with(|k| k.borrow()[*pos])
+            }
+        }
+    };
+}
+table_marker!(SrcA, Arc<Node<SrcA>>);
+table_marker!(SrcN, simplicity::node::NoDisconnect);
+table_marker!(SrcS, Arc<str>);
+
+const JETS: [Core; 4] = [Core::Add8, Core::Add16, Core::Verify, Core::Eq8];
+
+/// Instrumented converter from any marker N to Dst.
+struct Instr<'a, N: Marker> {
+    pos: &'a dyn Fn(&Node<N>) -> usize,
+    wit: &'a dyn Fn(&N::Witness) -> u64,
+    cmr_id: &'a dyn Fn(Cmr) -> u64,
+    pay: &'a dyn Fn(usize) -> u64,
+    hides: &'a [u8],
+    failat: u64,
+    calls: u64,
+    log: Vec<[u64; 7]>,
+    rows: Vec<[u64; 8]>,
+    seen: Vec<Arc<Node<Dst>>>,
+    ptr_ok: bool,
+}
+
+impl<N: Marker> Instr<'_, N> {
+    /// index of a converted node handed to a hook; checks pointer identity against it
+    fn idx(&mut self, a: &Arc<Node<Dst>>) -> u64 {
+        let i = *a.cached_data();
+        let mut known = false;
+        for s in &self.seen {
+            let same_ptr = Arc::ptr_eq(s, a);
+            if same_ptr != (*s.cached_data() == i) {
+                self.ptr_ok = false;
+            }
+            known |= same_ptr;
+        }
+        if !known {
+            self.seen.push(Arc::clone(a));
+        }
+        i as u64
+    }
+    fn ev(&mut self, hook: u64, d: &PostOrderIterItem<&Node<N>>, a: u64, b: u64) {
+        let p = (self.pos)(d.node) as u64;
+        self.log.push([hook, d.index as u64, p, opt(d.left_index), opt(d.right_index), a, b]);
+    }
+    fn fallible(&mut self, code: u64) -> Result<(), u64> {
+        self.calls += 1;
+        if self.calls == self.failat {
+            Err(code)
+        } else {
+            Ok(())
+        }
+    }
+}
+
+impl<N: Marker> Converter<N, Dst> for Instr<'_, N> {
+    type Error = u64;
+
+    fn visit_node(&mut self, d: &PostOrderIterItem<&Node<N>>) {
+        self.ev(0, d, 0, 0);
+    }
+
+    fn convert_witness(&mut self, d: &PostOrderIterItem<&Node<N>>, w: &N::Witness) -> Result<u64, u64> {
+        self.ev(1, d, 0, 0);
+        self.fallible(1)?;
+        Ok((self.wit)(w) + 7)
+    }
+
+    fn convert_disconnect(
+        &mut self,
+        d: &PostOrderIterItem<&Node<N>>,
+        mc: Option<&Arc<Node<Dst>>>,
+        _: &N::Disconnect,
+    ) -> Result<Option<Arc<Node<Dst>>>, u64> {
+        let a = match mc {
+            Some(x) => self.idx(x) + 1,
+            None => 0,
+        };
+        self.ev(2, d, a, 0);
+        self.fallible(2)?;
+        Ok(mc.cloned())
+    }
+
+    fn prune_case(
+        &mut self,
+        d: &PostOrderIterItem<&Node<N>>,
+        l: &Arc<Node<Dst>>,
+        r: &Arc<Node<Dst>>,
+    ) -> Result<Hide, u64> {
+        let (a, b) = (self.idx(l) + 1, self.idx(r) + 1);
+        self.ev(3, d, a, b);
+        self.fallible(3)?;
+        Ok(match self.hides.get((self.pos)(d.node)).copied().unwrap_or(0) {
+            1 => Hide::Left,
+            2 => Hide::Right,
+            _ => Hide::Neither,
+        })
+    }
+
+    fn convert_data(
+        &mut self,
+        d: &PostOrderIterItem<&Node<N>>,
+        inner: Inner<&Arc<Node<Dst>>, &Option<Arc<Node<Dst>>>, &u64>,
+    ) -> Result<usize, u64> {
+        let p = (self.pos)(d.node);
+        let k1 = |s: &mut Self, c: &Arc<Node<Dst>>| s.idx(c) + 1;
+        // kind, kid1, kid2, pay, (cmr), xd, wd
+        let row: [u64; 7] = match inner {
+            Inner::Iden => [0, 0, 0, 0, 0, 0, 0],
+            Inner::Unit => [1, 0, 0, 0, 0, 0, 0],
+            Inner::InjL(c) => [2, k1(self, c), 0, 0, 0, 0, 0],
+            Inner::InjR(c) => [3, k1(self, c), 0, 0, 0, 0, 0],
+            Inner::Take(c) => [4, k1(self, c), 0, 0, 0, 0, 0],
+            Inner::Drop(c) => [5, k1(self, c), 0, 0, 0, 0, 0],
+            Inner::Comp(l, r) => [6, k1(self, l), k1(self, r), 0, 0, 0, 0],
+            Inner::Case(l, r) => [7, k1(self, l), k1(self, r), 0, 0, 0, 0],
+            Inner::AssertL(c, h) => [8, k1(self, c), 0, (self.cmr_id)(h) + 1, 0, 0, 0],
+            Inner::AssertR(h, c) => [9, k1(self, c), 0, (self.cmr_id)(h) + 1, 0, 0, 0],
+            Inner::Pair(l, r) => [10, k1(self, l), k1(self, r), 0, 0, 0, 0],
+            Inner::Disconnect(c, x) => {
+                let xd = match x {
+                    Some(x) => self.idx(x) + 2,
+                    None => 1,
+                };
+                [11, k1(self, c), 0, 0, 0, xd, 0]
+            }
+            Inner::Witness(w) => [12, 0, 0, 0, 0, 0, *w + 1],
+            Inner::Fail(e) => [13, 0, 0, e.to_byte_array()[0] as u64 + 1, 0, 0, 0],
+            Inner::Jet(_) => [14, 0, 0, (self.pay)(p) + 1, 0, 0, 0],
+            Inner::Word(_) => [15, 0, 0, (self.pay)(p) + 1, 0, 0, 0],
+        };
+        self.ev(4, d, row[1], row[2]);
+        self.fallible(4)?;
+        // the node's own cmr is set by convert (checked on the result below); stand-in: the source's
+        let cmr = (self.cmr_id)(d.node.cmr());
+        self.rows.push([row[0], row[1], row[2], row[3], cmr, row[5], row[6], d.index as u64]);
+        Ok(d.index)
+    }
+}
+
+/// After a successful conversion: the cmr column from the result nodes themselves, pointer checks
+/// over the whole result, then the canonical output.
+fn conv_output<N: Marker>(ins: &mut Instr<'_, N>, res: Result<Arc<Node<Dst>>, u64>) -> String {
+    let mut out: Vec<u64> = vec![];
+    match res {
+        Ok(root) => {
+            let mut idxs = std::collections::HashSet::new();
+            let nodes: Vec<&Node<Dst>> =
+                root.as_ref().post_order_iter::<InternalSharing>().map(|it| it.node).collect();
+            for n in nodes {
+                let i = *n.cached_data();
+                if !idxs.insert(i) {
+                    ins.ptr_ok = false; // two result nodes (distinct pointers) for one item
+                }
+                if i < ins.rows.len() {
+                    ins.rows[i][4] = (ins.cmr_id)(n.cmr());
+                } else {
+                    ins.ptr_ok = false;
+                }
+                match n.inner() {
+                    Inner::InjL(c) | Inner::InjR(c) | Inner::Take(c) | Inner::Drop(c)
+                    | Inner::AssertL(c, _) | Inner::AssertR(_, c) => {
+                        ins.idx(c);
+                    }
+                    Inner::Comp(l, r) | Inner::Case(l, r) | Inner::Pair(l, r) => {
+                        ins.idx(l);
+                        ins.idx(r);
+                    }
+                    Inner::Disconnect(c, x) => {
+                        ins.idx(c);
+                        if let Some(x) = x {
+                            ins.idx(x);
+                        }
+                    }
+                    _ => {}
+                }
+            }
+            if *root.cached_data() + 1 != ins.rows.len() {
+                ins.ptr_ok = false; // the result is not the last converted node
+            }
+            out.push(0);
+            out.push(ins.log.len() as u64);
+            for e in &ins.log {
+                out.extend_from_slice(e);
+            }
+            out.push(ins.rows.len() as u64);
+            for r in &ins.rows {
+                out.extend_from_slice(r);
+            }
+            out.push(ins.calls);
+            out.push(ins.ptr_ok as u64);
+        }
+        Err(e) => {
+            out.push(1);
+            out.push(e);
+            out.push(ins.log.len() as u64);
+            for e in &ins.log {
+                out.extend_from_slice(e);
+            }
+            out.push(ins.calls);
+        }
+    }
+    join(&out)
+}
+
+struct CEntry {
+    k: u64,
+    a: usize,
+    b: usize,
+    pay: u64,
+}
+
+fn parse_ctable(s: &str) -> Vec<CEntry> {
+    s.split(',')
+        .map(|e| {
+            let p: Vec<u64> = e.split(':').map(|x| x.parse().expect("number")).collect();
+            CEntry { k: p[0], a: p[1] as usize, b: p[2] as usize, pay: p[3] }
+        })
+        .collect()
+}
+
+/// the combinator table as a DAG of marker M; `disc` makes the disconnect data from the right child
+fn build_table<M>(
+    table: &[CEntry],
+    disc: &dyn Fn(Option<Arc<Node<M>>>) -> M::Disconnect,
+) -> Vec<Arc<Node<M>>>
+where
+    M: Marker<CachedData = usize, Witness = u64>,
+{
+    let mut nodes: Vec<Arc<Node<M>>> = Vec::with_capacity(table.len());
+    for (pos, e) in table.iter().enumerate() {
+        let c = |i: usize| Arc::clone(&nodes[i]);
+        let inner: Inner<Arc<Node<M>>, M::Disconnect, u64> = match e.k {
+            0 => Inner::Iden,
+            1 => Inner::Unit,
+            2 => Inner::InjL(c(e.a)),
+            3 => Inner::InjR(c(e.a)),
+            4 => Inner::Take(c(e.a)),
+            5 => Inner::Drop(c(e.a)),
+            6 => Inner::Comp(c(e.a), c(e.b)),
+            7 => Inner::Case(c(e.a), c(e.b)),
+            8 => Inner::AssertL(c(e.a), nodes[e.pay as usize].cmr()),
+            9 => Inner::AssertR(nodes[e.pay as usize].cmr(), c(e.a)),
+            10 => Inner::Pair(c(e.a), c(e.b)),
+            11 => Inner::Disconnect(c(e.a), disc(if e.b == 0 { None } else { Some(c(e.b - 1)) })),
+            12 => Inner::Witness(e.pay),
+            13 => Inner::Fail(FailEntropy::from_byte_array([e.pay as u8; 64])),
+            14 => Inner::Jet(Box::new(JETS[e.pay as usize % 4]) as Box<dyn Jet>),
+            _ => Inner::Word(Word::u8(e.pay as u8)),
+        };
+        nodes.push(Arc::new(Node::from_parts(inner, pos)));
+    }
+    nodes
+}
+
+/// by reference and by cloned Arc, under the tracker selected by `mode`
+fn observe_both<M>(root: &Arc<Node<M>>, mode: u32, md: Option<usize>) -> String
+where
+    M: Marker<CachedData = usize, Witness = u64>,
+{
+    let idr = |n: &&Node<M>| *n.cached_data();
+    let ida = |n: &Arc<Node<M>>| *n.cached_data();
+    let r: &Node<M> = root.as_ref();
+    let a: Arc<Node<M>> = Arc::clone(root);
+    match mode {
+        0 => format!(
+            "{} {}",
+            observe::<&Node<M>, NoSharing, _>(r, md, idr),
+            observe::<Arc<Node<M>>, NoSharing, _>(a, md, ida)
+        ),
+        1 => format!(
+            "{} {}",
+            observe::<&Node<M>, InternalSharing, _>(r, md, idr),
+            observe::<Arc<Node<M>>, InternalSharing, _>(a, md, ida)
+        ),
+        2 => format!(
+            "{} {}",
+            observe::<&Node<M>, MaxSharing<M>, _>(r, md, idr),
+            observe::<Arc<Node<M>>, MaxSharing<M>, _>(a, md, ida)
+        ),
+        _ => panic!("mode"),
+    }
+}
+
+fn run_arc(t: &[&str]) -> String {
+    let root: usize = t[0].parse().expect("root");
+    let table = parse_ctable(t[1]);
+    let mode: u32 = t[2].parse().expect("mode");
+    let keys: Vec<Option<u64>> = if t[3] == "-" {
+        vec![None; table.len()]
+    } else {
+        t[3].split(',')
+            .map(|x| if x == "x" { None } else { Some(x.parse().expect("key")) })
+            .collect()
+    };
+    let md: Option<usize> = if t[4] == "-" { None } else { Some(t[4].parse().expect("depth")) };
+    KEYS.with(|k| *k.borrow_mut() = keys);
+    let r = guarded(|| match t[5] {
+        "o" => observe_both::<Src>(&build_table::<Src>(&table, &|x| x)[root], mode, md),
+        "a" => observe_both::<SrcA>(&build_table::<SrcA>(&table, &|x| x.expect("right child"))[root], mode, md),
+        "n" => observe_both::<SrcN>(&build_table::<SrcN>(&table, &|_| simplicity::node::NoDisconnect)[root], mode, md),
+        "s" => observe_both::<SrcS>(&build_table::<SrcS>(&table, &|_| Arc::from("hole"))[root], mode, md),
+        _ => panic!("marker"),
+    });
+    r.unwrap_or_else(|| "9".to_string())
+}
+
+fn run_conv(t: &[&str]) -> String {
+    let root: usize = t[0].parse().expect("root");
+    let table: Vec<CEntry> = t[1]
+        .split(',')
+        .map(|e| {
+            let p: Vec<u64> = e.split(':').map(|x| x.parse().expect("number")).collect();
+            CEntry { k: p[0], a: p[1] as usize, b: p[2] as usize, pay: p[3] }
+        })
+        .collect();
+    let mode: u32 = t[2].parse().expect("mode");
+    let keys: Vec<Option<u64>> = if t[3] == "-" {
+        vec![None; table.len()]
+    } else {
+        t[3].split(',')
+            .map(|x| if x == "x" { None } else { Some(x.parse().expect("key")) })
+            .collect()
+    };
+    let hides: Vec<u8> = if t[4] == "-" {
+        vec![0; table.len()]
+    } else {
+        t[4].bytes().map(|c| c - b'0').collect()
+    };
+    let failat: u64 = t[5].parse().expect("failat");
+    KEYS.with(|k| *k.borrow_mut() = keys);
+    let r = guarded(|| {
+        let mut nodes: Vec<Arc<Node<Src>>> = Vec::with_capacity(table.len());
+        for (pos, e) in table.iter().enumerate() {
+            let c = |i: usize| Arc::clone(&nodes[i]);
+            let inner: Inner<Arc<Node<Src>>, Option<Arc<Node<Src>>>, u64> = match e.k {
+                0 => Inner::Iden,
+                1 => Inner::Unit,
+                2 => Inner::InjL(c(e.a)),
+                3 => Inner::InjR(c(e.a)),
+                4 => Inner::Take(c(e.a)),
+                5 => Inner::Drop(c(e.a)),
+                6 => Inner::Comp(c(e.a), c(e.b)),
+                7 => Inner::Case(c(e.a), c(e.b)),
+                8 => Inner::AssertL(c(e.a), nodes[e.pay as usize].cmr()),
+                9 => Inner::AssertR(nodes[e.pay as usize].cmr(), c(e.a)),
+                10 => Inner::Pair(c(e.a), c(e.b)),
+                11 => Inner::Disconnect(c(e.a), if e.b == 0 { None } else { Some(c(e.b - 1)) }),
+                12 => Inner::Witness(e.pay),
+                13 => Inner::Fail(FailEntropy::from_byte_array([e.pay as u8; 64])),
+                14 => Inner::Jet(Box::new(JETS[e.pay as usize % 4]) as Box<dyn Jet>),
+                _ => Inner::Word(Word::u8(e.pay as u8)),
+            };
+            nodes.push(Arc::new(Node::from_parts(inner, pos)));
+        }
+        let mut ids: HashMap<Cmr, u64> = HashMap::new();
+        for (pos, n) in nodes.iter().enumerate() {
+            ids.entry(n.cmr()).or_insert(pos as u64);
+        }
+        let cmr_id = |c: Cmr| ids.get(&c).copied().unwrap_or(999_999);
+        let pos = |n: &Node<Src>| *n.cached_data();
+        let wit = |w: &u64| *w;
+        let pay = |p: usize| table[p].pay;
+        let mut ins: Instr<Src> = Instr {
+            pos: &pos,
+            wit: &wit,
+            cmr_id: &cmr_id,
+            pay: &pay,
+            hides: &hides,
+            failat,
+            calls: 0,
+            log: vec![],
+            rows: vec![],
+            seen: vec![],
+            ptr_ok: true,
+        };
+        let res = match mode {
+            0 => nodes[root].convert::<NoSharing, Dst, _>(&mut ins),
+            1 => nodes[root].convert::<InternalSharing, Dst, _>(&mut ins),
+            2 => nodes[root].convert::<MaxSharing<Src>, Dst, _>(&mut ins),
+            _ => panic!("mode"),
+        };
+        conv_output(&mut ins, res)
+    });
+    r.unwrap_or_else(|| "9".to_string())
+}
+
+/// the unit / injl / pair program iterated through `impl DagLike for Arc<Node<N>>`
+fn run_proga(t: &[&str]) -> String {
+    let root: usize = t[0].parse().expect("root");
+    let table = parse_table(t[1]);
+    let max_depth: Option<usize> = if t[2] == "-" { None } else { Some(t[2].parse().expect("depth")) };
+    let res = guarded(|| {
+        types::Context::with_context(|ctx| {
+            let mut nodes: Vec<Arc<ConstructNode>> = Vec::with_capacity(table.len());
+            for s in &table {
+                let n = match s.kind {
+                    Kind::Nul => Arc::<ConstructNode>::unit(&ctx),
+                    Kind::Un(i) => Arc::<ConstructNode>::injl(&nodes[i]),
+                    Kind::Bin(i, j) => {
+                        Arc::<ConstructNode>::pair(&nodes[i], &nodes[j]).expect("pair")
+                    }
+                };
+                nodes.push(n);
+            }
+            let mut cn: HashMap<usize, usize> = HashMap::new();
+            for (i, n) in nodes.iter().enumerate() {
+                cn.insert(Arc::as_ptr(n) as usize, i);
+            }
+            let cn = &cn;
+            let idr = move |n: &&ConstructNode| cn[&(*n as *const _ as usize)];
+            let ida = move |n: &Arc<ConstructNode>| cn[&(Arc::as_ptr(n) as usize)];
+            let construct = format!(
+                "{} {}",
+                observe::<&ConstructNode, InternalSharing, _>(nodes[root].as_ref(), max_depth, idr),
+                observe::<Arc<ConstructNode>, InternalSharing, _>(Arc::clone(&nodes[root]), max_depth, ida)
+            );
+            (nodes[root].finalize_types_non_program().expect("finalize"), construct)
+        })
+    });
+    let (commit, construct): (Arc<CommitNode>, String) = match res {
+        Some(c) => c,
+        None => return "9".to_string(),
+    };
+    let mut names: HashMap<usize, usize> = HashMap::new();
+    {
+        let d = TD(root, &table);
+        let a: Vec<usize> = d.post_order_iter::<InternalSharing>().map(|it| it.node.0).collect();
+        let b: Vec<usize> = commit
+            .as_ref()
+            .post_order_iter::<InternalSharing>()
+            .map(|it| it.node as *const _ as usize)
+            .collect();
+        if a.len() != b.len() {
+            return format!("6 {} {}", a.len(), b.len());
+        }
+        for (x, y) in a.iter().zip(b.iter()) {
+            names.insert(*y, *x);
+        }
+    }
+    let names = &names;
+    let id = move |n: &Arc<CommitNode>| names[&(Arc::as_ptr(n) as usize)];
+    format!(
+        "{} {} {} {}",
+        observe::<Arc<CommitNode>, MaxSharing<Commit>, _>(Arc::clone(&commit), max_depth, id),
+        observe::<Arc<CommitNode>, InternalSharing, _>(Arc::clone(&commit), max_depth, id),
+        observe::<Arc<CommitNode>, NoSharing, _>(Arc::clone(&commit), max_depth, id),
+        construct
+    )
+}
+
+/// unit / injl / pair CommitNode program converted under the three library trackers
+fn run_convp(t: &[&str]) -> String {
+    let root: usize = t[0].parse().expect("root");
+    let table = parse_table(t[1]);
+    let res = guarded(|| {
+        types::Context::with_context(|ctx| {
+            let mut nodes: Vec<Arc<ConstructNode>> = Vec::with_capacity(table.len());
+            for s in &table {
+                let n = match s.kind {
+                    Kind::Nul => Arc::<ConstructNode>::unit(&ctx),
+                    Kind::Un(i) => Arc::<ConstructNode>::injl(&nodes[i]),
+                    Kind::Bin(i, j) => {
+                        Arc::<ConstructNode>::pair(&nodes[i], &nodes[j]).expect("pair")
+                    }
+                };
+                nodes.push(n);
+            }
+            nodes[root].finalize_types_non_program().expect("finalize")
+        })
+    });
+    let commit: Arc<CommitNode> = match res {
+        Some(c) => c,
+        None => return "9".to_string(),
+    };
+    let mut names: HashMap<usize, usize> = HashMap::new();
+    let mut ids: HashMap<Cmr, u64> = HashMap::new();
+    {
+        let d = TD(root, &table);
+        let a: Vec<usize> = d.post_order_iter::<InternalSharing>().map(|it| it.node.0).collect();
+        let b: Vec<&CommitNode> =
+            commit.as_ref().post_order_iter::<InternalSharing>().map(|it| it.node).collect();
+        if a.len() != b.len() {
+            return format!("6 {} {}", a.len(), b.len());
+        }
+        let mut pairs: Vec<(usize, &CommitNode)> = a.iter().copied().zip(b.iter().copied()).collect();
+        pairs.sort_by_key(|p| p.0);
+        for (x, y) in pairs {
+            names.insert(y as *const _ as usize, x);
+            ids.entry(y.cmr()).or_insert(x as u64);
+        }
+    }
+    let mut out = vec![];
+    for mode in 0..3 {
+        let r = guarded(|| {
+            let cmr_id = |c: Cmr| ids.get(&c).copied().unwrap_or(999_999);
+            let pos = |n: &CommitNode| names[&(n as *const _ as usize)];
+            let wit = |_: &simplicity::node::NoWitness| 0u64;
+            let pay = |_: usize| 0u64;
+            let mut ins: Instr<Commit> = Instr {
+                pos: &pos,
+                wit: &wit,
+                cmr_id: &cmr_id,
+                pay: &pay,
+                hides: &[],
+                failat: 0,
+                calls: 0,
+                log: vec![],
+                rows: vec![],
+                seen: vec![],
+                ptr_ok: true,
+            };
+            let res = match mode {
+                0 => commit.convert::<MaxSharing<Commit>, Dst, _>(&mut ins),
+                1 => commit.convert::<InternalSharing, Dst, _>(&mut ins),
+                _ => commit.convert::<NoSharing, Dst, _>(&mut ins),
+            };
+            conv_output(&mut ins, res)
+        });
+        out.push(r.unwrap_or_else(|| "9".to_string()));
+    }
+    out.join(" ")
+}
+
 pub fn run(t: &[&str]) -> String {
     match t[0] {
+        "conv" => run_conv(&t[1..]),
+        "arc" => run_arc(&t[1..]),
+        "proga" => run_proga(&t[1..]),
+        "convp" => run_convp(&t[1..]),
         "dag" => run_dag(&t[1..]),
         "prog" => run_prog(&t[1..], true),
         "progs" => run_prog(&t[1..], false),
